@@ -346,3 +346,23 @@ M('c06-asgi-cookie-text-stripped-of-trailing-semicolon', 'C06', 'R16', 'falcon/a
 M('c06-asgi-latin1-helper-conditional-title-case-name', 'C06', 'R16', 'falcon/util/misc.py',
   "        result.append((key.encode('latin1'), value.encode('latin1')))\n",
   "        if '-' in key:\n            key = key.title()\n        result.append((key.encode('latin1'), value.encode('latin1')))\n")
+
+# ------------------------------------------------------------------ auto-mutation sweep (sa-am*)
+_TC = 'falcon/testing/client.py'
+_TH = 'falcon/testing/helpers.py'
+# R17 (sa-am00757 / sa-am01705): both constructors bind the same public per-request attributes
+M('c06-asgi-ctor-drops-uri-template', 'C06', 'R17', 'falcon/asgi/request.py', "        self.uri_template = None\n", "")
+M('c06-wsgi-ctor-drops-uri-template', 'C06', 'R17', 'falcon/request.py', "        self.uri_template = None\n", "")
+M('c06-asgi-ctor-drops-context', 'C06', 'R17', 'falcon/asgi/request.py', "        self.context = self.context_type()\n", "")
+M('c06-wsgi-ctor-binds-uri-template-conditionally', 'C06', 'R17', 'falcon/request.py',
+  "        self.uri_template = None\n", "        if self.method != 'OPTIONS':\n            self.uri_template = None\n")
+# R18 (sa-am02677): shared driver parameters have the same defaults
+M2('c06-asgi-simulate-params-csv-default-flipped', 'C06', 'R18', [{'file': _TC, 'old': "    params_csv: bool = False,\n", 'new': "    params_csv: bool = True,\n", 'count': 2, 'occurrence': 1}])
+M2('c06-wsgi-simulate-params-csv-default-flipped', 'C06', 'R18', [{'file': _TC, 'old': "    params_csv: bool = False,\n", 'new': "    params_csv: bool = True,\n", 'count': 2, 'occurrence': 0}])
+M2('c06-asgi-simulate-http-version-default', 'C06', 'R18', [{'file': _TC, 'old': "    http_version: str = '1.1',\n", 'new': "    http_version: str = '1.0',\n", 'count': 2, 'occurrence': 1}])
+M2('c06-create-scope-http-version-default', 'C06', 'R18', [{'file': _TH, 'old': "    http_version: str = '1.1',\n", 'new': "    http_version: str = '2',\n", 'count': 3, 'occurrence': 0}])
+# R19 (sa-am02730 / sa-am02792): shared driver parameters go through the same conversions
+M2('c06-create-scope-http-version-not-normalised', 'C06', 'R19', [{'file': _TH, 'old': "    http_version = _fixup_http_version(http_version)\n", 'new': "", 'count': 2, 'occurrence': 0}])
+M2('c06-create-environ-http-version-not-normalised', 'C06', 'R19', [{'file': _TH, 'old': "    http_version = _fixup_http_version(http_version)\n", 'new': "", 'count': 2, 'occurrence': 1}])
+M('c06-create-scope-port-not-converted', 'C06', 'R19', _TH, "        port = int(port)\n", "        pass\n")
+M('c06-create-environ-port-not-converted', 'C06', 'R19', _TH, "        port_str = str(int(port))\n", "        port_str = str(port)\n")
